@@ -6,6 +6,7 @@ import (
 	"errors"
 	"fmt"
 	"io"
+	"strings"
 
 	"github.com/gregoryv/mq"
 
@@ -26,7 +27,7 @@ func init() {
 		ID:    "C06",
 		Title: "ReadPacket consumes exactly one frame from the stream",
 		Level: "model_checking",
-		Rule: "explicit enumeration of operation histories on the real decoder: every sequence of length 1..2 over the whole frame alphabet (valid minimal+rich frames of all 15 types, short forms, remaining-length-0 frames of all 16 first-byte types, content-malformed frames) and every sequence of length 3 over a sub-alphabet (quick: 18 frames incl. a 5 000-byte frame; thorough: the whole alphabet), each followed by every tail in {none, 00, ff ff ff ff ff, first byte of a header, a whole further frame}, and each handed to ReadPacket through five io.Reader implementations (a counting reader, bufio.Reader with a 16-byte and a 4096-byte buffer, bytes.Reader, bytes.Buffer — a decoder may special-case what a reader can do). " +
+		Rule: "explicit enumeration of operation histories on the real decoder: every sequence of length 1..2 over the whole frame alphabet (valid minimal+rich frames of all 15 types, short forms, remaining-length-0 frames of all 16 first-byte types, content-malformed frames) and every sequence of length 3 over a sub-alphabet (quick: 18 frames incl. a 5 000-byte frame; thorough: the whole alphabet), each followed by every tail in {none, 00, ff ff ff ff ff, first byte of a header, a whole further frame}, and each handed to ReadPacket through nine io.Reader implementations (a counting reader; bufio.Reader with a 16-byte and a 4096-byte buffer, and one that already holds data when handed over; a reader of its own type offering ReadByte/Peek/Discard/Buffered/WriteTo; io.LimitedReader; bytes.Buffer; bytes.Reader; strings.Reader — a decoder may special-case what a reader can do). " +
 			"After each call: bytes drawn from the counting reader == 1+|remaining length field|+remaining length of that frame; result i equals the result of reading frame i alone (history and tail independence); every packet returned by an earlier call is observed again after the last call and must be unchanged (a frame's result depends on its own bytes only); with no tail the call after the last frame returns an error satisfying errors.Is(err, io.EOF). " +
 			"states = distinct (sequence prefix) stream positions visited, transitions = ReadPacket calls; distinct_nontrivial = distinct (sequence, tail) of length >= 2.",
 		Assumptions: []string{
@@ -41,8 +42,15 @@ func init() {
 var c06Tails = [][]byte{nil, {0x00}, {0xff, 0xff, 0xff, 0xff, 0xff}, {0x30}, {0xc0, 0x00}}
 
 // reader kinds: the stream is handed to ReadPacket through different
-// io.Reader implementations (a decoder may special-case what a reader can do)
-var c06ReaderKinds = []string{"counting", "bufio16", "bufio4096", "bytes.Reader", "bytes.Buffer"}
+// io.Reader implementations (a decoder may special-case what a reader can
+// do: concrete types, Peek/Discard, io.ByteReader, io.WriterTo)
+var c06ReaderKinds = func() []string {
+	var s []string
+	for _, k := range env.AllKinds() {
+		s = append(s, k.String())
+	}
+	return s
+}()
 
 type c06Stream struct {
 	r    io.Reader
@@ -50,24 +58,21 @@ type c06Stream struct {
 }
 
 func c06Open(kind int, stream []byte) c06Stream {
-	switch kind {
-	case 1, 2:
-		under := &env.Reader{Data: stream}
-		size := 16
-		if kind == 2 {
-			size = 4096
-		}
-		br := bufio.NewReaderSize(under, size)
-		return c06Stream{br, func() int { return under.Off - br.Buffered() }}
-	case 3:
-		br := bytes.NewReader(stream)
-		return c06Stream{br, func() int { return len(stream) - br.Len() }}
-	case 4:
-		bb := bytes.NewBuffer(append([]byte(nil), stream...))
-		return c06Stream{bb, func() int { return len(stream) - bb.Len() }}
-	}
 	under := &env.Reader{Data: stream}
-	return c06Stream{under, func() int { return under.Off }}
+	r := env.Wrap(env.Kind(kind), under)
+	switch v := r.(type) {
+	case *bufio.Reader:
+		return c06Stream{r, func() int { return under.Off - v.Buffered() }}
+	case *env.Rich:
+		return c06Stream{r, func() int { return under.Off - v.Buffered() }}
+	case *bytes.Reader:
+		return c06Stream{r, func() int { return len(stream) - v.Len() }}
+	case *bytes.Buffer:
+		return c06Stream{r, func() int { return len(stream) - v.Len() }}
+	case *strings.Reader:
+		return c06Stream{r, func() int { return len(stream) - v.Len() }}
+	}
+	return c06Stream{r, func() int { return under.Off }}
 }
 
 func c06Exec(frames []CFrame, seq []int, tail int, alone []string, kind int) *core.Finding {
@@ -143,12 +148,15 @@ func c06HeaderObjectionable(b []byte) bool {
 		return true
 	}
 	n := c06HeaderLen(b)
-	return !spec.IsMinimalVarint(b[1:n])
+	return n > 5 || !spec.IsMinimalVarint(b[1:n])
 }
 
 func c06HeaderLen(b []byte) int {
+	// first byte + every length byte up to and including the first one
+	// without a continuation bit (an over-long field has five of them; a
+	// decoder may give up after the fourth or read the fifth)
 	n := 1
-	for n < len(b) && n < 5 {
+	for n < len(b) {
 		n++
 		if b[n-1]&0x80 == 0 {
 			break
@@ -171,7 +179,7 @@ func c06Alone(frames []CFrame) []string {
 func c06Sub(frames []CFrame) []int {
 	want := map[string]bool{"CONNECT.min": true, "PUBLISH.rich": true, "PUBACK.rl2": true, "PUBREL.rl3": true, "SUBSCRIBE.min": true,
 		"SUBACK.min": true, "PINGREQ.min": true, "foreignprop.type4": true, "publish.5000B": true, "body2.type12": true, "DISCONNECT.rl0": true, "DISCONNECT.rl1": true, "AUTH.rich": true, "rl0.type0": true,
-		"rl0.type3": true, "bad.connack.unknownprop": true, "bad.puback.cut": true, "type0.body": true, "pingreq.nonminimal-rl": true}
+		"rl0.type3": true, "bad.connack.unknownprop": true, "bad.puback.cut": true, "type0.body": true, "pingreq.nonminimal-rl": true, "publish.nonminimal-rl2": true, "pingreq.overlong-rl5": true}
 	var idx []int
 	for i, f := range frames {
 		if want[f.Name] {
